@@ -141,6 +141,18 @@ let has_reordered_args (d : document) : bool =
         a = a' && n = n' && args <> args' && sorted args = sorted args'
       | _ -> false) fs) fs
 
+(* two fields with sub-selections under one response key that differ in name or arguments *)
+let has_composite_conflict (d : document) : bool =
+  let fs = List.concat_map (function DOp o -> List.concat_map all_fields_ml o.op_sels
+                                   | DFrag f -> List.concat_map all_fields_ml f.fr_sels) d in
+  let key a n = match a with Some x -> x | None -> n in
+  let sorted a = List.sort compare a in
+  List.exists (fun x -> List.exists (fun y ->
+      match x, y with
+      | SField (a, n, args, _, (_ :: _)), SField (a', n', args', _, (_ :: _)) ->
+        key a n = key a' n' && (n <> n' || sorted args <> sorted args')
+      | _ -> false) fs) fs
+
 let rec show_sel = function
   | SField (a, n, args, _, ss) ->
     (match a with Some x -> string_of_bytes x ^ ":" | None -> "") ^ string_of_bytes n ^
@@ -178,7 +190,8 @@ let handle (x : sexp) : (string * string) list =
       let ed = if not go || spec then d else ed in
       [("specfail", Printf.sprintf "accept_iff_valid (go=%s spec=%s rules=[%s] kind=%s op=%s stage=%s family=%s eff=%s erules=[%s])%s"
           (if go then "accept" else "reject") (if spec then "valid" else "invalid") (show_rules d) kind op stage fam eff (show_rules ed)
-          (if has_reordered_args d then " reordered-arguments" else ""))]
+          ((if has_reordered_args d then " reordered-arguments" else "") ^
+           (if has_composite_conflict d then " composite-conflict" else "")))]
   | L [A "c04merge"; A id; before; after] ->
     let d = doc_of before in
     (match after with
